@@ -20,8 +20,7 @@ Proof. exact kill_quiet_exact_l. Qed.
 (* power loss: the recoverable pages always equal the ghost view ... *)
 Theorem power_view_c02 :
   forall os, wf_run init os = true ->
-  forall i n, existsb is_api_ckpt (firstn (S i) os) = false ->
-  forall k, kmem k (g_unl (ghost_at os i n)) = false ->
+  forall i n k, kmem k (g_unl (ghost_at os i n)) = false ->
   r_pages (recover Power (at_pos os i n)) k = g_view (ghost_at os i n) k.
 Proof. exact power_view_l. Qed.
 
@@ -77,7 +76,7 @@ Example c02_witness :
 Proof. vm_compute. repeat split; reflexivity. Qed.
 
 Check kill_prefix_exact : forall os, wf_run init os = true -> forall i n, quiet (at_pos os i n) = true -> forall k, r_pages (recover Kill (at_pos os i n)) k = vol (at_pos os i n) k.
-Check power_view_c02 : forall os, wf_run init os = true -> forall i n, existsb is_api_ckpt (firstn (S i) os) = false -> forall k, kmem k (g_unl (ghost_at os i n)) = false -> r_pages (recover Power (at_pos os i n)) k = g_view (ghost_at os i n) k.
+Check power_view_c02 : forall os, wf_run init os = true -> forall i n k, kmem k (g_unl (ghost_at os i n)) = false -> r_pages (recover Power (at_pos os i n)) k = g_view (ghost_at os i n) k.
 Check power_statement_atomic : forall os i t marks body post, nth_error os i = Some (ODml t marks body post) -> forall n, g_view (ghost_at os i n) = g_view (ghost_at os i 0) \/ g_view (ghost_at os i n) = g_view (ghost_at os (S i) 0).
 Check power_commit_atomic : forall os i ord, nth_error os i = Some (OCommit ord) -> forall n, (forall k, g_view (ghost_at os i n) k = g_view (ghost_at os i 0) k) \/ (forall k, g_view (ghost_at os i n) k = g_view (ghost_at os (S i) 0) k).
 Check kill_torn_refuted : exists os i n, wf_run init os = true /\ quiet (at_pos os i n) = false /\ r_pages (recover Kill (at_pos os i n)) (1, 1) = Some 7 /\ r_pages (recover Kill (at_pos os i n)) (1, 2) = None /\ r_pages (recover Kill (at_pos os i 0)) (1, 1) = Some 5.
